@@ -23,13 +23,26 @@ for d in sorted(glob.glob('/verif/seeded/*/')):
     if r["exit"] == 1 and r["by"]:
         meta["detected"] = True
         meta["caught_by"] = r["by"]
+        meta.pop("missed_because", None)
     else:
         meta["detected"] = False
         meta.setdefault("missed_because", "see DESIGN.md §11")
         meta.pop("caught_by", None)
     json.dump(meta, open(mp, 'w'), indent=1)
-    by = "; ".join(sorted({b["harness"].replace("Verif", "") for b in r["by"]})) if r["exit"] == 1 else "**missed** (" + meta.get("missed_because", "") + ")"
-    rows.append("| %s | %s |" % (sid, by))
-print("| seeded change | detected by |\n|---|---|")
-print("\n".join(rows))
-print("\n%d of %d detected" % (sum(1 for s in res.values() if s["exit"] == 1), len(res)))
+    if r["exit"] == 1:
+        by = "; ".join(sorted({b["harness"].replace("Verif", "") for b in r["by"]}))
+    elif meta.get("caught_by_thorough"):
+        by = "quick: missed; thorough: " + meta["caught_by_thorough"]
+    else:
+        by = "**missed** (" + meta.get("missed_because", "") + ")"
+    rows.append("| %s | %s | %s |" % (sid, meta.get("needs_to_manifest", ""), by))
+table = "| seeded change | needs, to manifest | detected by (quick tier unless said otherwise) |\n|---|---|---|\n" + "\n".join(rows)
+table += "\n\n%d of %d detected by the quick tier" % (sum(1 for s in res.values() if s["exit"] == 1), len(res))
+print(table)
+dp = '/verif/DESIGN.md'
+d = open(dp).read()
+b, e = '<!-- SEEDED-TABLE-BEGIN -->', '<!-- SEEDED-TABLE-END -->'
+if b in d and e in d:
+    d = d[:d.index(b) + len(b)] + "\n" + table + "\n" + d[d.index(e):]
+    open(dp, 'w').write(d)
+    print("DESIGN.md table replaced")
